@@ -541,13 +541,18 @@ func (d *Decoder) decodeSymbolTo(v reflect.Value) error {
 	switch v.Kind() {
 	case reflect.String:
 		if val != nil {
+			if val.Text == nil {
+				return fmt.Errorf("ion: cannot decode a symbol with unknown text to %v", v.Type().String())
+			}
 			v.SetString(*val.Text)
 		}
 		return nil
 
 	case reflect.Struct:
 		if v.Type() == symbolType {
-			v.Set(reflect.ValueOf(val))
+			if val != nil {
+				v.Set(reflect.ValueOf(*val))
+			}
 			return d.attachAnnotations(v)
 		}
 		return d.decodeToStructWithAnnotation(v, symbolType.Kind())
